@@ -219,6 +219,7 @@ def run(chk):
         chk.samples.extend(hmeta[len(corpus()) + 5:len(corpus()) + 9])
         alive = g.alive()
         chk.tie("gateway still running after the range requests", alive, g.log_tail())
+    overlapped(chk, gwbin)
 
     # ---------------- evaluate model and Spec in Coq
     if not built:
@@ -259,6 +260,48 @@ def run(chk):
                          {"size": sz, "header": h.decode("latin1"), "observed": o})
         elif o == "PANIC":
             chk.fail("c13:panic", "ParseGetObjectRange(%d, %r) panics" % (sz, h), {"size": sz, "header": h.decode("latin1")})
+
+
+def overlapped(chk, gwbin):
+    """a ranged GET parked after it opened the object while the key is overwritten: status, Content-Range, Content-Length and body must
+    all describe ONE object (the replaced or the new one), with the range applied to that object's size"""
+    from vlib import hooks
+    with gw.Site({"iam": False}, name="c13o") as site:
+        hk = hooks.Hooks(site.base)
+        g = site.gateway(gwbin, extra_env=hk.env())
+        A, B = s3c.Client(g.port, "root", "rootsecret"), s3c.Client(g.port, "root", "rootsecret")
+        chk.require(A.req("PUT", "/bk1").status == 200, "c13:setup", "CreateBucket failed")
+        n = 0
+        for at in ("posix.getobject.statted", "posix.getobject.attrsread", "posix.getobject.opened"):
+            for old, new in ((b"0123456789", b"abcd"), (b"abcd", b"0123456789ABCDEFGHIJ"), (b"0123456789", b"")):
+                for rng in ("bytes=2-7", "bytes=5-", "bytes=0-19", "bytes=12-15"):
+                    n += 1; key = "ov%d" % n
+                    A.req("PUT", "/bk1/" + key, body=old)
+                    rd, w, parked = hooks.held(hk, at, lambda: A.req("GET", "/bk1/" + key, headers={"Range": rng}), lambda: B.req("PUT", "/bk1/" + key, body=new))
+                    hk.clear()
+                    chk.case(("overlap", at, len(old), len(new), rng), True); chk.traces += 1
+                    if not parked or rd is None:
+                        chk.count("overlap:not-reached"); continue
+                    def expect(obj):
+                        kind = classify(len(obj), rng.encode())
+                        if kind in ("open-ended", "clipped", "single-byte", "inside"):
+                            a, _, b = rng[6:].partition("-")
+                            if a == "": lo = max(len(obj) - int(b), 0); hi = len(obj) - 1
+                            else: lo = int(a); hi = min(int(b), len(obj) - 1) if b else len(obj) - 1
+                            return (206, "bytes %d-%d/%d" % (lo, hi, len(obj)), obj[lo:hi + 1])
+                        return None
+                    got = (rd.status, rd.headers.get("content-range"), rd.body)
+                    oks = [e for e in (expect(old), expect(new)) if e is not None]
+                    whole = [(200, None, o) for o in (old, new) if expect(o) is None and classify(len(o), rng.encode()) not in ("unsatisfiable",)]
+                    row = {"parked_at": at, "old_size": len(old), "new_size": len(new), "range": rng, "status": rd.status, "content_range": rd.headers.get("content-range"),
+                           "content_length": rd.headers.get("content-length"), "body": rd.body.decode("latin1")[:40], "overwrite": w.status if w is not None else None}
+                    chk.count("overlap:%s:%d" % (at.split(".")[-1], rd.status))
+                    if rd.status in (200, 206) and got not in oks and got not in whole:
+                        chk.fail("c13:overlap:mixed-sizes", "GET with Range %s parked at %s while the %d-byte object was replaced by a %d-byte one answered %d, Content-Range %r and %r: the range of neither object"
+                                 % (rng, at, len(old), len(new), rd.status, rd.headers.get("content-range"), rd.body[:30]), row)
+                    elif rd.status == -1 or rd.status >= 500:
+                        chk.fail("c13:overlap:error", "GET with Range %s parked at %s while the object was replaced answered %d %s" % (rng, at, rd.status, rd.code), row)
+        chk.tie("gateway still running after the overlapped range requests", g.alive(), g.log_tail())
 
 
 def replay(chk, data):
